@@ -134,6 +134,26 @@ fn redeem_case(rng: &mut Rng, case: &mut Case, family: Family) -> Outcome {
         Ok(Err(e)) => return violated("well-typed-program-rejected", format!("{} ; {}", e, dag.render())),
         Err(pn) => return violated("panic:build", pn),
     };
+    // identity roots identify: two witness nodes that hold different values never share an identity root
+    // (the encoder would write them as one node)
+    {
+        use simplicity::dag::InternalSharing;
+        let mut by_ihr: std::collections::HashMap<[u8; 32], Value> = std::collections::HashMap::new();
+        for x in p.as_ref().post_order_iter::<InternalSharing>() {
+            if let simplicity::node::Inner::Witness(v) = x.node.inner() {
+                case.count("witness-nodes-ihr-checked");
+                match by_ihr.get(&x.node.ihr().to_byte_array()) {
+                    Some(other) if !val::sem_eq(other, v) || !other.is_of_type(&x.node.arrow().target) => {
+                        return violated("ihr-collision:witness", format!("two witness nodes with identity root {} hold different values {} and {} ; program {}", x.node.ihr(), other, v, dag.render()));
+                    }
+                    Some(_) => {}
+                    None => {
+                        by_ihr.insert(x.node.ihr().to_byte_array(), v.clone());
+                    }
+                }
+            }
+        }
+    }
     let (pb, wb) = match guard(|| p.to_vec_with_witness()) {
         Ok(x) => x,
         Err(pn) => return violated("panic:encode", format!("{} ; {}", pn, dag.render())),
